@@ -295,6 +295,7 @@ type c16World struct {
 	token    *c16Token
 	admin    *http.Cookie
 	signBody []byte // the token's answer to alice's outstanding U2F challenge
+	pending  c16Pending // a federated login that was started and waits for its callback (when OAuth2 is configured)
 }
 
 func (cw *c16World) reset(t *testing.T) {
@@ -330,6 +331,18 @@ func (cw *c16World) reset(t *testing.T) {
 		delete(st.totpLocalRateLimit, k)
 	}
 	st.totpLocalTateLimitMutex.Unlock()
+	st.Mutex.Lock()
+	for k := range st.pendingOauth2 {
+		delete(st.pendingOauth2, k)
+	}
+	st.Mutex.Unlock()
+	if st.Config.Oauth2.Enabled && st.Config.Oauth2.Config != nil {
+		p, ok := cw.oauthBegin()
+		if !ok {
+			t.Fatalf("federated login could not be started")
+		}
+		cw.pending = p
+	}
 	rq := verifNewRequest("GET", u2fSignRequestPath, nil)
 	rq.AddCookie(cw.userCookie(c16Alice, AuthTypePassword))
 	rr, _ := cw.env.serve(rq)
@@ -531,12 +544,21 @@ func c16Handlers() map[string]c16Handler {
 			r.AddCookie(cw.userCookie(c16Alice, AuthTypePassword))
 			return r
 		}})
+	// the federated login: one pending login (model key 9, state parameter 5) exists after reset
+	hs = append(hs,
+		c16Handler{"oauth-callback", c16Federated, func(int64) string { return "HOauthCallback 9 5" }, func(cw *c16World) *http.Request { return cw.oauthCallbackReq(cw.pending) }},
+		c16Handler{"oauth-callback-badstate", c16Federated, func(int64) string { return "HOauthCallback 9 6" }, func(cw *c16World) *http.Request {
+			return cw.oauthCallbackReq(c16Pending{cookie: cw.pending.cookie, state: "not-the-state"})
+		}},
+		c16Handler{"oauth-begin", c16Federated, func(int64) string { return "HOauthBegin 8 6" }, func(cw *c16World) *http.Request { return verifNewRequest("GET", oauth2LoginBeginPath, nil) }})
 	m := map[string]c16Handler{}
 	for _, h := range hs {
 		m[h.name] = h
 	}
 	return m
 }
+
+const c16Federated = "(federated login)"
 
 func c16Status(code int) int {
 	if code == 302 {
@@ -601,7 +623,7 @@ func c16ShapeKey(trace []vStep, a, b int) string {
 }
 
 // requests that present a one-time value: several copies in one group present the same value
-var c16OneTime = map[string]string{"bootauth-bob": "bootstrap-otp", "totp-alice": "totp", "u2fsign-alice": "u2f-challenge"}
+var c16OneTime = map[string]string{"bootauth-bob": "bootstrap-otp", "totp-alice": "totp", "u2fsign-alice": "u2f-challenge", "oauth-callback": "oauth2-pending"}
 
 // is thread a's run contiguous with respect to thread b (no step of b strictly inside a's span)
 func c16Overlap(trace []vStep, a, b int) bool {
@@ -638,10 +660,13 @@ func c16Serial(trace []vStep) bool {
 
 func TestVerif_C16(t *testing.T) {
 	res := newVerifResult("all interleavings at storage-operation granularity (parking points: entry of LoadUserProfile / SaveUserProfile / DeleteUserProfile and every Mutex.Lock of 2fa_totp.go and 2fa_u2f.go, in an instrumented copy of the current files) of pairs (quick) and triples (thorough) of requests drawn from token disable / enable / rename / delete, user add / delete, bootstrap-OTP auth / generation, TOTP auth; each schedule run on the real handlers over SQLite, (answers, final profiles) compared with the sequential orders and with Model.Conc.run_seg; non-trivial = the two requests touch the same user and their storage operations really interleave")
+	provider := c16Provider()
+	defer provider.Close()
 	env := verifSetup(t, func(c *AppConfigFile, dir string) {
 		c.Base.AllowedAuthBackendsForWebUI = []string{"password"}
 		c.Base.AllowedAuthBackendsForCerts = []string{"U2F", "TOTP"}
 		c.Base.AdminUsers = []string{"admin"}
+		c16OauthConfig(c, provider.URL)
 	})
 	env.handler = env.buildHandler()
 	cw := &c16World{env: env, token: c16NewToken()}
@@ -664,6 +689,7 @@ func TestVerif_C16(t *testing.T) {
 		{"totp-alice", "totp-alice"}, {"totp-alice", "totp-alice-bad"}, {"totp-alice", "disable1"}, {"totp-alice", "rename1a"},
 		{"disable1", "bootauth-bob"},
 		{"u2fsign-alice", "u2fsign-alice"}, {"u2fsignreq-alice", "u2fsign-alice"}, {"u2fsign-alice", "disable1"}, {"deluser-alice", "u2fsign-alice"}, {"u2fsignreq-alice", "u2fsignreq-alice"},
+		{"oauth-callback", "oauth-callback"}, {"oauth-begin", "oauth-callback"}, {"oauth-callback", "oauth-callback-badstate"}, {"oauth-begin", "oauth-begin"},
 	}
 	triples := [][]string{
 		{"disable1", "rename1a", "rename2b"}, {"disable1", "enable1", "delete2"}, {"deluser-alice", "disable1", "rename2b"},
@@ -845,7 +871,7 @@ func TestVerif_C16(t *testing.T) {
 	sb.WriteString("Definition db0 : db := [(1, {| toks := [tk 1 11; tk 2 12]; botp := None; last_totp := 0 |}); (2, {| toks := []; botp := Some 7; last_totp := 0 |})].\n")
 	sb.WriteString("(* (requests, schedule at parking-point granularity, observed (answers, final profiles of users 1 2 3, -)) *)\n")
 	sb.WriteString("Definition cases : list (list hid * list nat * (list (option N) * list (option profile) * list (option N))) := [\n " + strings.Join(cases, ";\n ") + "].\n")
-	sb.WriteString("Definition c16_bad (c : list hid * list nat * (list (option N) * list (option profile) * list (option N))) : bool :=\n  let '(hs, sched, obs) := c in\n  negb (outcome_eqb (outcome [1; 2; 3] (run_seg (init_world db0 [(M_localAuth, 1, 3)] (map handler hs)) sched)) obs).\n")
+	sb.WriteString("Definition c16_bad (c : list hid * list nat * (list (option N) * list (option profile) * list (option N))) : bool :=\n  let '(hs, sched, obs) := c in\n  negb (outcome_eqb (outcome [1; 2; 3] (run_seg (init_world db0 [(M_localAuth, 1, 3); (M_pendingOauth2, 9, 5)] (map handler hs)) sched)) obs).\n")
 	sb.WriteString("Definition c16_mismatches := Eval vm_compute in mismatches c16_bad cases.\nPrint c16_mismatches.\nDefinition c16_ncases := Eval vm_compute in length cases.\nPrint c16_ncases.\n")
 	sb.WriteString("(* unseal || requests that serve the published keys, on a state that starts sealed: (requests, schedule, observed answers) *)\n")
 	sb.WriteString("Definition ucases : list (list hid * list nat * list (option N)) := [\n " + strings.Join(ucases, ";\n ") + "].\n")
